@@ -60,8 +60,12 @@ CLAIMED = {
               'neighbour differences are <= 127 steps, unpack inverts pack, first element exact, checksum), '
               'kernel-checked counterexamples showing the unrestricted statement is false for the code as it is '
               '(recorded finding), and a bit-exact correspondence of the executable model with pack2d/unpack on '
-              'dyadic fields on every run.'),
-        note=BASE_NOTE + 'float32 log in the exponent rule is tolerated at exact powers of two; the ARL file-layout clause is not modelled yet.',
+              'dyadic fields on every run, the scaling exponent included (it must equal floor(log2 RMAX)+1 exactly; the float32 '
+              'logarithm that broke this at some powers of two was repaired by a fix: commit). File clause: files laid out by a '
+              'reference encoder that packs with the LEAN model are read by arlpackedbit (variables, levels, times, every field '
+              'within the bound), incl. grids with 1000+ points in one direction; layout_disjoint / layout_size carry the record '
+              'arithmetic.'),
+        note=BASE_NOTE + 'the label/index text fields (Fortran edit descriptors) are the reference encoder\'s, not modelled in Lean; the writer writearlpackedbit is not exercised.',
         technique='Lean 4 proof (induction over rows, linarith over Q) + model/implementation correspondence',
         design='§7 C20'),
     'C17': dict(
@@ -69,9 +73,13 @@ CLAIMED = {
               'non-negative without extrapolation, linear profiles reproduced exactly, unit vectors at source '
               'nodes) and of sigma2coeff/interpSigma(conserve) (every source layer covered exactly once when top '
               'and bottom are shared, thickness-weighted column sums equal target thicknesses, column mass '
-              'preserved, constants preserved), proved for all grids by induction; exact correspondence of the '
-              'model with scipy/numpy results on dyadic grids every run.'),
-        note=BASE_NOTE + 'linear-exactness theorem is stated for ascending sources (descending = reversed; sum/non-negativity proved for both); application along an axis is exercised through interpSigma only.',
+              'preserved, constants preserved), proved for all grids by induction; apply_linear / apply_const: the per-column '
+              'application (weights * data).sum(0) reproduces linear profiles and constants. Exact correspondence of the '
+              'model with scipy/numpy results on dyadic grids every run; the application is exercised through '
+              'interpDimension (1-D coordinate and N-D coordinate variable, one weight matrix per column), IOAPI interpSigma '
+              '(conserve and linear, with and without a change of the model top) and GEOS-Chem interpSigma on generated '
+              '47-level files, each column compared with the Lean model, numpy.interp and a linear profile.'),
+        note=BASE_NOTE + 'linear-exactness theorems are stated for ascending sources (descending = reversed; sum/non-negativity/constants proved for both); float arithmetic on the non-dyadic GEOS-Chem eta grid is compared to 1e-6.',
         technique='Lean 4 proof (structural induction, telescoping sums, linarith/field_simp over Q) + model/implementation correspondence',
         design='§7 C17'),
     'C16': dict(
@@ -80,8 +88,10 @@ CLAIMED = {
               'edges contain the value, nodes map to their own index - for ascending and descending coordinates, all '
               'lengths; model-level lemmas tie the lookup model to that core; exact correspondence of the whole model '
               '(three bounds representations, methods, left/right, clean, bounds modes, warnings/errors) with val2idx on '
-              'every run. Three genuine defects were repaired by fix: commits.'),
-        note=BASE_NOTE + 'np.interp exactness on power-of-two spacings, margin stream elsewhere; datetime front-ends are covered under C12.',
+              'every run, for coordinate variables of type float64, float32 and integer, and through the datetime front end '
+              '(time2idx with naive, UTC and non-zero-offset datetimes on an "hours since" coordinate). Three genuine defects '
+              'were repaired by fix: commits.'),
+        note=BASE_NOTE + 'np.interp exactness on power-of-two spacings, margin stream elsewhere; date2num (netCDF4/cftime) is exact on the generated multiples of 1/16 hour.',
         technique='Lean 4 proof (structural induction over the coordinate list, linarith over Q) + model/implementation correspondence',
         design='§7 C16'),
     'C15': dict(
@@ -91,8 +101,13 @@ CLAIMED = {
               'auto-detected reader when names are unique; the copy/alias flag of the model is re-extracted from '
               '_getreader.py on every run, so the theorems are about the code as it is now; kernel-checked counterexample '
               'for the aliasing variant (the defect repaired by a fix: commit). Correspondence: real histories in freshly '
-              'forked processes vs the model (selection at every step, registry order), probe data digests vs fresh process.'),
-        note=BASE_NOTE + 'isMine() answers are measured, not modelled; class creation during an open (would register new readers) is observed through the registry comparison only.',
+              'forked processes vs the model (selection at every step, registry order), probe data digests vs fresh process. '
+              'Histories may also REGISTER a reader (a user subclass defined in the middle of the history): events_registry / '
+              'events_independent prove that the registry after any mix of opens and registrations is the initial one with the '
+              'registrations applied in order, so the probe result depends only on the file and the registered readers; '
+              'registered_first: a new reader is searched first. The pool includes same-sized files of one family with different '
+              'layouts and a little-endian file opened with endian named.'),
+        note=BASE_NOTE + 'isMine() answers are measured, not modelled; process-global state other than the registry (class-level caches) is observed through the probe digest against a fresh process.',
         technique='Lean 4 proof (frame lemma + induction over open histories) with a source-extracted model flag + model/implementation correspondence',
         design='§7 C15'),
     'C12': dict(
@@ -161,7 +176,7 @@ CLAIMED = {
               'with identical header, grid, species and counts (never shifted or partly filled values); cuts off a word '
               'boundary always raise. Correspondence of the reader model with the real reader on every cut point of small '
               'generated files (quick: all record boundaries +-4 bytes and random offsets; thorough: every byte).'),
-        note=BASE_NOTE + 'Theorems: uamiv Memmap reader (every cut point) and the slab readers (slab_prefix_safe); wind and bpch readers are compared with the oracle on every cut point of generated files (their reader inference is not modelled). The wind reader no longer hangs on truncated prefixes (fix: commit).',
+        note=BASE_NOTE + 'Theorems: uamiv Memmap reader (every cut point) and the slab readers (slab_prefix_safe); wind, bpch and lateral_boundary (modes r and r+, incl. "the file on disk keeps its size") readers are compared with the oracle on every cut point of generated files (their reader inference is not modelled). The wind reader no longer hangs on truncated prefixes (fix: commit).',
         technique='Lean 4 proof (prefix invariance of fixed-stride reads, divisibility argument for the partial-time check) + model/implementation correspondence over cut points',
         design='§7 C08-C09-C13-C14'),
     'C08': dict(
